@@ -5,7 +5,7 @@
 
 using namespace vp;
 
-enum { OP_ADD, OP_SUB, OP_MUL, OP_DIV, OP_ADD_A, OP_SUB_A, OP_MUL_A, OP_DIV_A, OP_PREINC, OP_POSTINC, OP_PREDEC, OP_POSTDEC, OP_NEG, OP_SQRT, OP_SC_SQRT, OP_MUL_ADD_SEQ, OP_MUL_SUB_SEQ, OP_MULA_ADDA_SEQ, OP_COUNT };
+enum { OP_ADD, OP_SUB, OP_MUL, OP_DIV, OP_ADD_A, OP_SUB_A, OP_MUL_A, OP_DIV_A, OP_PREINC, OP_POSTINC, OP_PREDEC, OP_POSTDEC, OP_NEG, OP_SQRT, OP_SC_SQRT, OP_MUL_ADD_SEQ, OP_MUL_SUB_SEQ, OP_MULA_ADDA_SEQ, OP_USAGE, OP_COUNT };
 static const VpOp OPS[] = {
     {"add", {VK_FLT, VK_FLT_REL}, {SK_SMALL}, 2}, {"sub", {VK_FLT, VK_FLT_REL}, {SK_SMALL}, 2}, {"mul", {VK_FLT, VK_FLT_REL}, {SK_SMALL}, 2}, {"div", {VK_FLT, VK_FLT_REL}, {SK_SMALL}, 2},
     {"add_assign", {VK_FLT, VK_FLT_REL}, {SK_SMALL}, 1}, {"sub_assign", {VK_FLT, VK_FLT_REL}, {SK_SMALL}, 1}, {"mul_assign", {VK_FLT, VK_FLT_REL}, {SK_SMALL}, 1}, {"div_assign", {VK_FLT, VK_FLT_REL}, {SK_SMALL}, 1},
@@ -13,6 +13,8 @@ static const VpOp OPS[] = {
     {"unary_minus", {VK_FLT}, {SK_SMALL}, 1}, {"sqrt", {VK_FLT}, {SK_SMALL}, 2}, {"scalar_sqrt", {VK_FLT}, {SK_SMALL}, 1},
     // two operators in one expression: each rounds on its own (a product feeding a sum is two IEEE operations, never one fused multiply-add)
     {"mul_then_add", {VK_FLT, VK_FLT_REL, VK_FLT_REL}, {SK_SMALL}, 2}, {"mul_then_sub", {VK_FLT, VK_FLT_REL, VK_FLT_REL}, {SK_SMALL}, 1}, {"mul_assign_then_add_assign", {VK_FLT, VK_FLT_REL, VK_FLT_REL}, {SK_SMALL}, 1},
+    // usage forms (s0 / 4 selects): x += x, x -= x, x *= x, x /= x, and the returned reference used as an lvalue: (x *= b) += c, (x += b) /= c
+    {"aliased_and_chained_forms", {VK_FLT, VK_FLT_REL, VK_FLT_REL}, {SK_SMALL}, 1},
 };
 enum { CL_INEXACT, CL_ZERO, CL_SUBNORMAL, CL_INF, CL_NAN, CL_OVERFLOW, CL_UNDERFLOW, CL_NON_NEAREST_MODE, CL_ORDINARY, CL_FUSED_DIFFERS };
 static const char* const CLASSES[] = {"inexact_result", "zero_operand_or_result", "subnormal_operand_or_result", "infinite_operand", "nan_operand", "overflow_to_infinity",
@@ -32,8 +34,17 @@ template<class V> __attribute__((noinline)) static void do_seq(unsigned op, cons
     switch (op) {
     case OP_MUL_ADD_SEQ: *r = *a * *b + *c; break;
     case OP_MUL_SUB_SEQ: *r = *a * *b - *c; break;
-    default: { V t = *a; t *= *b; t += *c; *r = t; break; }
+    case OP_MULA_ADDA_SEQ: { V t = *a; t *= *b; t += *c; *r = t; break; }
+    default: break;
     }
+}
+template<class V> __attribute__((noinline)) static void do_usage(unsigned form, const V* a, const V* b, const V* c, V* r) {
+    V x = *a;
+    switch (form) {
+    case 0: x += x; break; case 1: x -= x; break; case 2: x *= x; break; case 3: x /= x; break;
+    case 4: (x *= *b) += *c; break; default: (x += *b) /= *c; break;
+    }
+    *r = x;
 }
 template<class V> __attribute__((noinline)) static void do_op(unsigned op, const V* a, const V* b, V* r, V* r2) {
     switch (op) {
@@ -60,9 +71,21 @@ template<class V> static void run_seq(const VpCase* c, VpOutcome* o, int mode, c
         RoundGuard g(mode);
         before = FpEnv::take();
         poison_below(al[0] ^ op);
-        do_seq<V>(op, &a, &b, &cc, &r); rd<V>(r, got);
+        const unsigned form = (unsigned)(((c->s[0] < 0 ? -c->s[0] : c->s[0]) / 4) % 6);
+        if (op == OP_USAGE) do_usage<V>(form, &a, &b, &cc, &r); else do_seq<V>(op, &a, &b, &cc, &r);
+        rd<V>(r, got);
         after = FpEnv::take();
         for (unsigned i = 0; i < W; ++i) {
+            if (op == OP_USAGE) {
+                switch (form) {
+                case 0: exp[i] = Ref<T>::bin(R_ADD, al[i], al[i]); break; case 1: exp[i] = Ref<T>::bin(R_SUB, al[i], al[i]); break;
+                case 2: exp[i] = Ref<T>::bin(R_MUL, al[i], al[i]); break; case 3: exp[i] = Ref<T>::bin(R_DIV, al[i], al[i]); break;
+                case 4: exp[i] = Ref<T>::bin(R_ADD, Ref<T>::bin(R_MUL, al[i], bl[i]), cl[i]); break;
+                default: exp[i] = Ref<T>::bin(R_DIV, Ref<T>::bin(R_ADD, al[i], bl[i]), cl[i]); break;
+                }
+                fused[i] = exp[i];
+                continue;
+            }
             const uint64_t p = Ref<T>::bin(R_MUL, al[i], bl[i]);
             exp[i] = Ref<T>::bin(op == OP_MUL_SUB_SEQ ? R_SUB : R_ADD, p, cl[i]);
             fused[i] = Ref<T>::fma(al[i], bl[i], op == OP_MUL_SUB_SEQ ? (cl[i] ^ F::sgn()) : cl[i]);
@@ -81,7 +104,7 @@ template<class V> static void run_seq(const VpCase* c, VpOutcome* o, int mode, c
     }
     if (nt) o->nontrivial = 1; else o->classes |= 1u << CL_ORDINARY;
     if (!before.same(after)) { fail(o, -1, "fp_environment_changed", "%s changed the FP environment", OPS[op].name); return; }
-    char tag[96]; std::snprintf(tag, sizeof tag, "two_roundings:mode%d", mode);
+    char tag[96]; std::snprintf(tag, sizeof tag, "%s:mode%d", op == OP_USAGE ? "usage_form" : "two_roundings", mode);
     cmp_lanes(o, W, exp, got, nullptr, tag, OPS[op].name);
 }
 
@@ -192,10 +215,10 @@ extern "C" void vp_enum(int tier, uint64_t seed, uint32_t shard, uint32_t nshard
                 // products of boundary mantissas (inexact) plus an addend that cancels most of the product or sits half an ulp away: the triples where fusing shows
                 const std::vector<uint64_t> S = vpl::flt_lattice_small(B);
                 const size_t m = S.size();
-                for (int mode = 0; mode < 4; ++mode) {
-                    VpCase c; std::memset(&c, 0, sizeof c); c.target = t; c.op = op; c.s[0] = mode;
+                for (int mode = 0; mode < (op == OP_USAGE ? 24 : 4); ++mode) {
+                    VpCase c; std::memset(&c, 0, sizeof c); c.target = t; c.op = op; c.s[0] = mode;       // usage forms: mode + 4 * form
                     size_t fill = 0; uint64_t rot = seed + op + mode;
-                    for (size_t i = 0; i < m; i += (tier ? 1 : 2)) for (size_t j = i % 3; j < m; j += 3) for (size_t k = (i + j) % 5; k < m; k += (tier ? 5 : 11)) {
+                    for (size_t i = 0; i < m; i += (tier ? 1 : 2)) for (size_t j = i % 3; j < m; j += (op == OP_USAGE ? 9 : 3)) for (size_t k = (i + j) % 5; k < m; k += (tier ? 5 : 11) * (op == OP_USAGE ? 3 : 1)) {
                         unsigned lane = (unsigned)((fill + rot) % W);
                         c.v[0][lane] = S[i]; c.v[1][lane] = S[j]; c.v[2][lane] = S[k];
                         if (++fill == W) { emit(&c, ctx); fill = 0; ++rot; }
